@@ -240,3 +240,20 @@ Example par_stream_example :
   | _ => False
   end.
 Proof. vm_compute. repeat split. Qed.
+
+(* C04 / C05: STREAMINFO accumulated from precomputed frames (the multi-threaded path measures the stored bytes) equals the
+   one accumulated from the same frames without stored bytes (the single-threaded path uses count_bits) *)
+Lemma update_info_strip f i channels bps :
+  pre_coherent f -> frame_canon channels bps (strip_frame f) -> update_info i f = update_info i (strip_frame f).
+Proof.
+  intros Hc Hcan. unfold update_info. rewrite (precomputed_frame_count_bits f channels bps Hc Hcan). reflexivity.
+Qed.
+
+Theorem precomputed_streaminfo_same channels bps : forall fs i,
+  Forall (fun f => pre_coherent f /\ frame_canon channels bps (strip_frame f)) fs ->
+  fold_left update_info fs i = fold_left update_info (map strip_frame fs) i.
+Proof.
+  induction fs as [|f fr IH]; intros i H; [reflexivity|].
+  inversion H as [|? ? [Hc Hcan] Hr]; subst. cbn [fold_left map].
+  rewrite (update_info_strip f i channels bps Hc Hcan). apply IH. exact Hr.
+Qed.
